@@ -152,8 +152,10 @@ R.contract(
         "forall(lambda k: implies(k in old(self._streams), self._streams[k] == old(self._streams)[k]))",
         "implies(stream_id not in old(self._streams), result.sender._buffer_fin is None and result.sender._reset_error_code is None)",
         "self._is_client == old(self._is_client)",
+        # C06: a stream this end opens starts with the send limit the peer advertised for streams it did NOT initiate
+        "implies(stream_id not in old(self._streams), result.max_stream_data_remote == (self._remote_max_stream_data_uni if uni(stream_id) else self._remote_max_stream_data_bidi_remote))",
     ],
-    prop=["C16"],
+    prop=["C16", "C06"],
 )
 R.contract(
     "QuicConnection.send_stream_data",
